@@ -367,6 +367,78 @@ let tree_check line =
                 | Some why -> verdict false why
                 | None -> verdict true ""))
 
+(* ---- e2e: the real registry listed by the real Divan::main(); model input "attr rev items...",
+   implementation line "<items> => <depth:name ...>" (the listing shows no arguments) ---- *)
+let rec strip_args (t : tree) : tree =
+  match t with
+  | Leaf (a, n, c, l, _) -> Leaf (a, n, c, l, None)
+  | Parent (r, g, ch) -> Parent (r, g, List.map strip_args ch)
+
+let names_s forest =
+  let rows = dump_forest forest in
+  String.concat " " (List.map (fun (((d, _), name), _) -> string_of_n d ^ ":" ^ enc2 name) rows)
+
+let split_arrow (i : string) : (string * string) option =
+  let sep = " => " in
+  let n = String.length sep and h = String.length i in
+  let rec go k = if k + n > h then None else if String.sub i k n = sep then Some k else go (k + 1) in
+  match go 0 with
+  | Some k -> Some (String.sub i 0 k, String.sub i (k + n) (h - k - n))
+  | None -> None
+
+let e2e line =
+  let (attr, rev, drop, items) = tree_case line in
+  let forest = List.map strip_args (retained drop (build_forest items)) in
+  match sort_forest_dec attr rev forest with
+  | Ok f -> names_s f
+  | Panic p -> "panic " ^ string_of_panic p
+
+let parse_names (s : string) : dnode list =
+  let rows = List.map (fun tok ->
+    match String.split_on_char ':' tok with
+    | [d; nm] -> (int_of_string d, { dk = "?"; dname = dec_name nm; dargs = None; dch = [] })
+    | _ -> failwith "names row") (List.filter (fun t -> t <> "") (String.split_on_char ' ' s)) in
+  let roots = ref [] in
+  let stack : (int * dnode) list ref = ref [] in
+  List.iter (fun (d, nd) ->
+    while (match !stack with (d', _) :: _ when d' >= d -> true | _ -> false) do stack := List.tl !stack done;
+    (match !stack with
+     | (_, p) :: _ -> p.dch <- p.dch @ [nd]
+     | [] -> roots := !roots @ [nd]);
+    stack := (d, nd) :: !stack) rows;
+  !roots
+
+let rec overlay_names (orig : tree list) (out : dnode list) : tree list =
+  let used = Array.make (List.length orig) false in
+  let origa = Array.of_list orig in
+  if List.length orig <> List.length out then raise (Mismatch "sibling-count-differs");
+  List.map (fun nd ->
+    let found = ref None in
+    Array.iteri (fun i t ->
+      if !found = None && not used.(i) then
+        match t with
+        | Leaf (_, n, _, _, _) when n = nd.dname && nd.dch = [] -> found := Some i
+        | Parent (_, _, _) when display_name t = nd.dname && nd.dch <> [] -> found := Some i
+        | _ -> ()) origa;
+    match !found with
+    | None -> raise (Mismatch "entry-lost-duplicated-or-moved")
+    | Some i ->
+      used.(i) <- true;
+      (match origa.(i) with
+       | Leaf (a, n, c, l, g) -> Leaf (a, n, c, l, g)
+       | Parent (r, g, ch) -> Parent (r, g, overlay_names ch nd.dch))) out
+
+let e2e_check line =
+  let (c, i) = split_sb line in
+  match split_arrow i with
+  | None -> verdict false ("outcome:" ^ i)
+  | Some (items, listing) ->
+    let (attr, rev, drop, items) = tree_case (c ^ " " ^ items) in
+    let orig = List.map strip_args (retained drop (build_forest items)) in
+    (match (try Ok (overlay_names orig (parse_names listing)) with Mismatch _ -> Panic Other | Failure _ -> Panic Other) with
+     | Ok out -> verdict (forest_sb_dec attr rev orig out) "listed-siblings-not-in-the-specified-order"
+     | Panic _ -> verdict false "entry-lost-duplicated-or-moved-to-another-parent")
+
 let dispatch mode line =
   match mode with
   | "nat" -> nat line
@@ -379,6 +451,8 @@ let dispatch mode line =
   | "wsort.sb" -> sort_check_gen true line
   | "tree" -> tree line
   | "tree.sb" -> tree_check line
+  | "e2e" -> e2e line
+  | "e2e.sb" -> e2e_check line
   | "class" -> cls line
   | "tok" -> tok line
   | _ -> failwith ("unknown mode " ^ mode)
